@@ -58,6 +58,122 @@ def postcondition(pname, blk):
     return None
 
 
+LOWER_RULES = ('nand_synth', 'and_inverter_synth', 'two_way_concat', 'one_bit_selects')
+
+
+def _canon(nets, is_orig, name_of, width_of, op_of):
+    """destination-rooted expression trees with the temporaries inlined: {original dest name: tree}, [state nets]"""
+    prod = {}
+    for n in nets:
+        op, par, args, dests = op_of(n)
+        if op not in 'r@':
+            for d in dests:
+                prod[d] = n
+
+    def tree(w, depth=0):
+        if is_orig(w):
+            return ('wire', name_of(w))
+        if w not in prod or depth > 200:
+            return ('undriven-temp', width_of(w))
+        op, par, args, _ = op_of(prod[w])
+        return (op, par, width_of(w), tuple(tree(a, depth + 1) for a in args))
+    out, state = {}, []
+    for n in nets:
+        op, par, args, dests = op_of(n)
+        if op == '@':
+            state.append(('@', par, tuple(tree(a) for a in args)))
+        elif is_orig(dests[0]):
+            key = name_of(dests[0])
+            val = (op, par, tuple(tree(a) for a in args))
+            if key in out:
+                return None, 'two drivers of %s' % key
+            out[key] = val
+    return out, sorted(state, key=repr)
+
+
+def model_tie(ctx, pname, src, work):
+    """the block the real pass produced = the block Lean's LowerNet.lowerBlock produces, up to the names of the
+    temporaries (structural comparison of destination-rooted expression trees)"""
+    ser = Ser(src)
+    resp = ctx.driver.ask({'cmd': 'lower', 'rule': pname, 'block': ser.data})
+    if not resp.get('ok'):
+        raise RuntimeError('lower model: %s' % resp)
+    ctx.tie_n = getattr(ctx, 'tie_n', 0) + 1
+    if not resp['wf']:
+        ctx.tie_notwf = getattr(ctx, 'tie_notwf', 0) + 1
+    if not resp['topo']:
+        ctx.tie_nottopo = getattr(ctx, 'tie_nottopo', 0) + 1
+    size = resp['size']
+    tmpw = {w: bw for w, bw in resp['tmpw']}
+    memname = {mid: m.name for mid, m in ser.mems.items()}
+
+    def m_op(n):
+        par = n.get('p')
+        if n['op'] in 'm@':
+            par = memname.get(par, par)
+        elif n['op'] == 's':
+            par = tuple(par)
+        return n['op'], par, n['a'], n['d']
+    want = _canon(resp['nets'], lambda w: w < size, lambda w: ser.wires[w].name, lambda w: tmpw.get(w), m_op)
+    orig = {w.name for w in src.wirevector_set}
+
+    def r_op(n):
+        par = n.op_param
+        if n.op in 'm@':
+            par = par[1].name
+        elif n.op == 's':
+            par = tuple(int(x) for x in par)
+        return n.op, par, n.args, n.dests
+    got = _canon(list(work.logic), lambda w: w.name in orig, lambda w: w.name, lambda w: w.bitwidth, r_op)
+    if want != got:
+        ctx.tie_bad = getattr(ctx, 'tie_bad', 0) + 1
+        if not getattr(ctx, 'tie_first', None):
+            diff = None
+            if want[0] is not None and got[0] is not None:
+                for k in sorted(set(want[0]) | set(got[0])):
+                    if want[0].get(k) != got[0].get(k):
+                        diff = 'dest %s: model %r, pass %r' % (k, want[0].get(k), got[0].get(k))
+                        break
+            ctx.tie_first = '%s: %s' % (pname, str(diff or (want[1], got[1]))[:400])
+        return False
+    return True
+
+
+def dco_tie(ctx, src, work):
+    """the block direct_connect_outputs produced = Lean's Dco.directConnectOutputs, net by net; the chain of blocks the
+    model pass goes through satisfies the side conditions of direct_connect_outputs_run_eq"""
+    ser = Ser(src)
+    resp = ctx.driver.ask({'cmd': 'dco', 'block': ser.data})
+    if not resp.get('ok'):
+        raise RuntimeError('dco model: %s' % resp)
+    ctx.dco_n = getattr(ctx, 'dco_n', 0) + 1
+    if not resp['chain_ok']:
+        ctx.dco_notok = getattr(ctx, 'dco_notok', 0) + 1
+    memname = {mid: m.name for mid, m in ser.mems.items()}
+    want = []
+    for n in resp['nets']:
+        par = n.get('p')
+        if n['op'] in 'm@':
+            par = memname.get(par, par)
+        elif n['op'] == 's':
+            par = tuple(par)
+        want.append((n['op'], par, tuple(ser.wires[a].name for a in n['a']), tuple(ser.wires[d].name for d in n['d'])))
+    got = []
+    for n in work.logic:
+        par = n.op_param
+        if n.op in 'm@':
+            par = par[1].name
+        elif n.op == 's':
+            par = tuple(int(x) for x in par)
+        got.append((n.op, par, tuple(a.name for a in n.args), tuple(d.name for d in n.dests)))
+    if sorted(want, key=repr) != sorted(got, key=repr):
+        ctx.dco_bad = getattr(ctx, 'dco_bad', 0) + 1
+        if not getattr(ctx, 'dco_first', None):
+            only_m = [x for x in want if x not in got][:2]
+            only_r = [x for x in got if x not in want][:2]
+            ctx.dco_first = 'only in model %r, only in pass output %r' % (only_m, only_r)
+
+
 def check_seq(ctx, label, src, seq, steps, memmap_by_id, replay0):
     replay = dict(replay0, variant=label, passes=list(seq), block=Ser(src).data)
     ins0, outs0 = passlib.io_names(src)
@@ -79,6 +195,13 @@ def check_seq(ctx, label, src, seq, steps, memmap_by_id, replay0):
             ctx.violation('%s-malformed' % pname, 'block after %s (sequence %s, %s) fails sanity_check: %s' % (
                 pname, '>'.join(seq), label, str(e)[:200]), replay)
             return False
+        if len(seq) == 1 and pname in LOWER_RULES:
+            model_tie(ctx, pname, src, work)
+        if len(seq) == 1 and pname == 'direct_connect_outputs':
+            if len(src.logic) <= 90:
+                dco_tie(ctx, src, work)      # the model (written for proofs, not speed) is cubic in the net count
+            else:
+                ctx.count('dco-tie-skipped-large-block', 'n')
         pc = postcondition(pname, work)
         if pc:
             ctx.violation('%s-postcondition' % pname, '%s: %s' % (pname, pc), replay)
@@ -138,6 +261,28 @@ def main(ctx):
                 o = Output(name='orep')
                 o <<= pyrtl.concat(*([t] * rng.randint(3, 5)))
                 d.outputs.append(o)
+            wide_ins = [w for w in d.inputs if len(w) >= 2]
+            if wide_ins and rng.random() < 0.6:
+                # a select taking exactly as many bits as its source has, but not the identity: reversal, rotation,
+                # a random permutation, or repeated indices
+                a = rng.choice(wide_ins)
+                n_ = len(a)
+                how = rng.randrange(4)
+                if how == 0:
+                    idx = list(range(n_))[::-1]
+                elif how == 1:
+                    r_ = rng.randrange(1, n_)
+                    idx = [(i + r_) % n_ for i in range(n_)]
+                elif how == 2:
+                    idx = list(range(n_))
+                    rng.shuffle(idx)
+                else:
+                    idx = [rng.randrange(n_) for _ in range(n_)]
+                t = pyrtl.WireVector(n_)
+                d.block.add_net(pyrtl.LogicNet('s', tuple(idx), (a,), (t,)))
+                o = Output(n_, 'operm')
+                o <<= t
+                d.outputs.append(o)
         steps = gen.rand_stimulus(rng, d, rng.choice([3, 5]))
         _, memmap, _ = gen.rand_init(rng, d, with_default=False)
         memmap_by_id = {m.id: mm for m, mm in memmap.items()}
@@ -177,6 +322,19 @@ def main(ctx):
         ctx.sample({'design': desc, 'sequences': [list(s[2]) for s in seqs[:6]]})
         if len(ctx.violations) >= 6:
             break
+    tn, tb, tw = getattr(ctx, 'tie_n', 0), getattr(ctx, 'tie_bad', 0), getattr(ctx, 'tie_notwf', 0)
+    tt = getattr(ctx, 'tie_nottopo', 0)
+    ctx.oblige('model:the lowered schedule is a dependency order of the lowered block (isTopo, every tested block)', tt == 0,
+               '%d/%d blocks' % (tt, tn))
+    ctx.oblige('tie:nand_synth / and_inverter_synth / two_way_concat / one_bit_selects output = Lean LowerNet.lowerBlock (up to '
+               'temporary names); tested blocks satisfy wfB', tb == 0 and tw == 0 and tn > 0,
+               '%d/%d blocks differ, %d not wfB%s' % (tb, tn, tw, ('; first: ' + ctx.tie_first) if getattr(ctx, 'tie_first', None) else ''))
+    ctx.extra['lower_tie'] = {'blocks': tn, 'differ': tb, 'not_wf': tw}
+    dn, db, dk = getattr(ctx, 'dco_n', 0), getattr(ctx, 'dco_bad', 0), getattr(ctx, 'dco_notok', 0)
+    ctx.oblige('tie:direct_connect_outputs output = Lean Dco.directConnectOutputs (net by net); tested blocks satisfy chainOkB',
+               db == 0 and dk == 0 and dn > 0,
+               '%d/%d blocks differ, %d not chainOkB%s' % (db, dn, dk, ('; first: ' + ctx.dco_first) if getattr(ctx, 'dco_first', None) else ''))
+    ctx.extra['dco_tie'] = {'blocks': dn, 'differ': db, 'not_chain_ok': dk}
     ctx.oblige('oracle:Spec(pass-sequence(b))=Spec(b); well-formed; io kept; postconditions', not ctx.violations,
                '%d/%d pass sequences agree' % (agree, total))
     return conclude(ctx, rule='random designs (registers and memories feeding Outputs directly, fan-outs up to the pool '
